@@ -179,7 +179,9 @@ def cond_segments_tile (geobj):
     p1 = np.asarray (geobj.p1, float)
     p2 = np.asarray (geobj.p2, float)
     L  = sum (np.linalg.norm (np.asarray (s.p2, float) - np.asarray (s.p1, float)) for s in segs)
-    tol = 1e-9 * max (L, 1e-300)
+    # (coordinates carry the rounding of their own magnitude: structures hundreds of kilometres from the origin)
+    big = float (max (np.abs (p1).max (), np.abs (p2).max ()))
+    tol = 1e-9 * max (L, 1e-300) + 8 * np.finfo (float).eps * big
     gaps = [np.linalg.norm (np.asarray (segs [0].p1, float) - p1)]
     for a, b in zip (segs [:-1], segs [1:]):
         gaps.append (np.linalg.norm (np.asarray (a.p2, float) - np.asarray (b.p1, float)))
@@ -192,7 +194,7 @@ def cond_segments_tile (geobj):
             )
     for s in segs:
         l = np.linalg.norm (np.asarray (s.p2, float) - np.asarray (s.p1, float))
-        if not (l > 0) or abs (s.seg_len - l) > 1e-9 * max (l, 1e-300):
+        if not (l > 0) or abs (s.seg_len - l) > 1e-9 * max (l, 1e-300) + 8 * np.finfo (float).eps * big:
             raise Contract_Broken \
                 ( 'C13', 'compute_segments.tiling'
                 , '%s: segment %d has length %r (seg_len %r)' % (geobj, s.idx, l, s.seg_len)
